@@ -105,6 +105,7 @@ type Profile struct {
 	Gateways []string // nodes with the gateway bit
 	HotKeys  map[string][]string
 	PayAcc   map[string]string // did -> payment account
+	Sids     map[string]string // sid DIDs that own models: sid -> the account that creates it (its payment account); also in PayAcc
 	Weights  map[string]int
 	Sizes    []int64
 	Durs     []int64
@@ -115,6 +116,7 @@ type Profile struct {
 	Replicas    []int64  // replica counts for new stores (default 1..3)
 	LateNodes   []string // accounts that may register as nodes later in the trace
 	RenewMulti  int      // percent of renewals that name several models of the owner (default 25)
+	RenewLonger int      // percent of renewals asking for twice the longest term any shard of the model has so far
 	ForcePush   int      // percent of updates that are force-pushes (default 25)
 	Staking     bool     // run x/staking's end-blocker too (profiles with staking messages)
 	ShortBlocks bool     // keep block advances short (reward traces stay inside the exact fragment)
@@ -141,6 +143,11 @@ func (d *Driver) Setup() {
 	}
 	sort.Strings(dids)
 	for _, did := range dids {
+		if acc, ok := p.Sids[did]; ok {
+			// a sid DID comes into being with its first binding; that account is its payment address
+			d.do(Event{Kind: "Binding", Creator: acc, Acc: acc, Did: did})
+			continue
+		}
 		d.do(Event{Kind: "PayAddr", Creator: p.PayAcc[did], Acc: p.PayAcc[did], Did: did})
 	}
 	for _, n := range p.Nodes {
@@ -292,6 +299,42 @@ func (d *Driver) actFor(node string) (creator, provider string) {
 
 // Next produces the next event.
 func (d *Driver) Next() Event {
+	e := d.nextRaw()
+	d.sidSigner(&e)
+	return e
+}
+
+// sidSigner: a request of a sid DID is signed with the key of one of its documents: mostly the latest, sometimes an
+// older version (rotation adds documents).
+func (d *Driver) sidSigner(e *Event) {
+	if len(d.P.Sids) == 0 || e.Signer == "" {
+		return
+	}
+	if _, ok := d.P.Sids[e.Signer]; !ok {
+		return
+	}
+	for _, v := range d.St.Versions {
+		if v.Doc == e.Signer && len(v.Versions) > 0 {
+			if d.R.Intn(10) < 6 {
+				e.Signer = v.Versions[len(v.Versions)-1]
+			} else {
+				e.Signer = d.pick(v.Versions)
+			}
+			return
+		}
+	}
+}
+
+// sidDocs: every sid document on chain.
+func (d *Driver) sidDocs() []string {
+	var out []string
+	for _, v := range d.St.Versions {
+		out = append(out, v.Versions...)
+	}
+	return out
+}
+
+func (d *Driver) nextRaw() Event {
 	for tries := 0; tries < 50; tries++ {
 		k := d.weighted()
 		switch k {
@@ -513,6 +556,71 @@ func (d *Driver) Next() Event {
 				amt = x.Shares / 2
 			}
 			return Event{Kind: "Redelegate", Creator: x.D, Val: x.V, Val2: dst, Amount: amt}
+		case "SidBind":
+			// one more account for a model-owning sid DID (submitted by an account already bound to it)
+			sid := d.pick(d.sidNames())
+			free := []string{}
+			for _, a := range []string{"a05", "a06", "a11", "a12"} {
+				bound := false
+				for _, b := range d.St.Bindings {
+					if b.Acc == a {
+						bound = true
+					}
+				}
+				if !bound {
+					free = append(free, a)
+				}
+			}
+			if len(free) == 0 {
+				continue
+			}
+			return Event{Kind: "Binding", Creator: d.P.Sids[sid], Acc: d.pick(free), Did: sid}
+		case "SidRotate":
+			// key rotation: a new document; every bound account except the payment account is dropped
+			sid := d.pick(d.sidNames())
+			var rm []string
+			for _, b := range d.St.Bindings {
+				if b.Did == sid && b.Acc != d.P.Sids[sid] {
+					rm = append(rm, b.Acc)
+				}
+			}
+			if len(rm) == 0 {
+				continue
+			}
+			return Event{Kind: "DidUpdate", Creator: d.P.Sids[sid], Did: sid, Tx: rm, Datas: []string{d.P.Sids[sid]}}
+		case "SuperCycle":
+			// state-directed walk around the role's requirements: a super node gives up capacity; a node that holds the
+			// share but not the role adds a little capacity (or re-declares its status); otherwise a node stakes enough
+			// with the validator it declares
+			var supers []string
+			for _, x := range d.St.Nodes {
+				if x.Role == 1 {
+					supers = append(supers, x.A)
+				}
+			}
+			as := d.aspirants()
+			switch {
+			case len(supers) > 0 && d.R.Intn(2) == 0:
+				return Event{Kind: "RemoveVstorage", Creator: d.pick(supers), Size: d.pickI(d.P.Caps)}
+			case len(as) > 0:
+				n := d.pick(as)
+				if d.R.Intn(4) == 0 {
+					return Event{Kind: "Reset", Creator: n, Status: 15, Val: "", Tx: d.P.HotKeys[n]}
+				}
+				return Event{Kind: "AddVstorage", Creator: n, Size: []int64{100000, 500000, 1000000}[d.R.Intn(3)]}
+			default:
+				n := d.pick(d.P.Nodes)
+				val := ""
+				for _, x := range d.St.Nodes {
+					if x.A == n {
+						val = x.Val
+					}
+				}
+				if val == "" {
+					return Event{Kind: "Reset", Creator: n, Status: 15, Val: d.pick([]string{"v1", "v2"}), Tx: d.P.HotKeys[n]}
+				}
+				return Event{Kind: "Delegate", Creator: n, Val: val, Amount: []int64{250000, 400000, 1000000}[d.R.Intn(3)]}
+			}
 		case "ResetSuper":
 			n := d.pick(d.P.Nodes)
 			st := []int64{15, 15, 15, 13, 7, 0}[d.R.Intn(6)]
@@ -649,7 +757,29 @@ func (d *Driver) Next() Event {
 					}
 				}
 			}
-			return Event{Kind: "Renew", Creator: cr, Provider: pv, Owner: m.Owner, Signer: m.Owner, Datas: datas, Dur: d.pickI(d.P.Durs), Timeout: d.pickI(d.P.Timeouts)}
+			dur := d.pickI(d.P.Durs)
+			if d.R.Intn(100) < d.P.RenewLonger {
+				// every longer term raises the collateral again (the top-up paths: balance, then recorded debt)
+				longest := int64(0)
+				for _, s := range d.St.Shards {
+					for _, o := range m.Orders {
+						if s.Order == o && s.Dur > longest {
+							longest = s.Dur
+						}
+					}
+					for _, rn := range s.Renew {
+						for _, o := range m.Orders {
+							if rn.Order == o && rn.Dur > longest {
+								longest = rn.Dur
+							}
+						}
+					}
+				}
+				if longest > 0 && longest <= 50000 {
+					dur = 2 * longest
+				}
+			}
+			return Event{Kind: "Renew", Creator: cr, Provider: pv, Owner: m.Owner, Signer: m.Owner, Datas: datas, Dur: dur, Timeout: d.pickI(d.P.Timeouts)}
 		case "Migrate":
 			var cands []PShard
 			for _, s := range d.St.Shards {
@@ -674,9 +804,28 @@ func (d *Driver) Next() Event {
 			return Event{Kind: "Claim", Creator: n}
 		case "AddVstorage":
 			n := d.pick(d.P.Nodes)
+			if d.P.Staking && d.R.Intn(100) < 40 {
+				// a node that holds stake with its declared validator but not the role: every capacity change of such a
+				// node re-decides the role, also the ones that stay below (or cross) the capacity threshold by little
+				if as := d.aspirants(); len(as) > 0 {
+					return Event{Kind: "AddVstorage", Creator: d.pick(as), Size: []int64{100000, 500000, 1000000}[d.R.Intn(3)]}
+				}
+			}
 			return Event{Kind: "AddVstorage", Creator: n, Size: d.pickI(d.P.Caps)}
 		case "RemoveVstorage":
 			n := d.pick(d.P.Nodes)
+			if d.P.Staking && d.R.Intn(100) < 40 {
+				// a super node giving up capacity: the role has to follow, and to stay away while capacity is short
+				var supers []string
+				for _, x := range d.St.Nodes {
+					if x.Role == 1 {
+						supers = append(supers, x.A)
+					}
+				}
+				if len(supers) > 0 {
+					n = d.pick(supers)
+				}
+			}
 			return Event{Kind: "RemoveVstorage", Creator: n, Size: d.pickI(d.P.Caps)}
 		case "Reset":
 			n := d.pick(d.P.Nodes)
@@ -701,6 +850,39 @@ func (d *Driver) Next() Event {
 	return d.blocksEvent()
 }
 
+func (d *Driver) sidNames() []string {
+	var out []string
+	for k := range d.P.Sids {
+		out = append(out, k)
+	}
+	sort.Strings(out)
+	return out
+}
+
+// aspirants: nodes without the super role that hold the required share of the validator they declare.
+func (d *Driver) aspirants() []string {
+	var out []string
+	for _, n := range d.St.Nodes {
+		if n.Role != 0 || n.Val == "" {
+			continue
+		}
+		sn, sd := ratio(d.C.Cfg.ShareThreshold)
+		total := int64(0)
+		for _, v := range d.St.Vals {
+			if v.V == n.Val {
+				total = v.Shares
+			}
+		}
+		for _, dl := range d.St.Delegs {
+			if dl.D == n.A && dl.V == n.Val && dl.Shares > 0 && dl.Shares*sd >= total*sn {
+				out = append(out, n.A)
+				break
+			}
+		}
+	}
+	return out
+}
+
 // allAccounts lists every named account (nodes, payment accounts, hot keys, strangers).
 func (d *Driver) allAccounts() []string {
 	var out []string
@@ -715,6 +897,9 @@ func (d *Driver) allDids() []string {
 	for _, x := range d.C.Dids {
 		out = append(out, x.Name)
 	}
+	if len(d.P.Sids) > 0 {
+		out = append(out, d.sidDocs()...)
+	}
 	return out
 }
 
@@ -723,6 +908,14 @@ func (d *Driver) allDids() []string {
 // claimed provider, a crafted commit id. The real code decides what happens.
 func (d *Driver) Twist(e Event) Event {
 	signed := e.Kind == "Store" || e.Kind == "Terminate" || e.Kind == "Renew" || e.Kind == "Permission"
+	if signed && len(d.P.Sids) > 0 && d.R.Intn(4) == 0 {
+		// the header names the owner, the version-id names whatever document the signer holds the key of
+		if docs := d.sidDocs(); len(docs) > 0 {
+			e.Signer = d.pick(docs)
+			e.SigMode = "kidspoof"
+			return e
+		}
+	}
 	for tries := 0; tries < 10; tries++ {
 		switch d.R.Intn(10) {
 		case 0: // signed by someone else, owner field untouched
@@ -826,7 +1019,12 @@ func (d *Driver) NextDid() Event {
 			did := d.pick(sids)
 			acc := d.pick(accs)
 			creator := acc
-			if bs := boundTo(did); len(bs) > 0 && d.R.Intn(4) != 0 {
+			if d.R.Intn(4) == 0 {
+				// an Ethereum account (eip155 proof); somebody with a cosmos account has to submit it
+				acc = d.pick([]string{"e1", "e2", "e3"})
+				creator = d.pick(accs)
+			}
+			if bs := cosmosOnly(boundTo(did)); len(bs) > 0 && d.R.Intn(4) != 0 {
 				creator = d.pick(bs)
 			} else if d.R.Intn(3) == 0 {
 				creator = d.pick(accs)
@@ -853,9 +1051,9 @@ func (d *Driver) NextDid() Event {
 			if d.R.Intn(6) == 0 && len(keep) > 0 { // forget one account: not all handled
 				keep = keep[1:]
 			}
-			creator := d.pick(bs)
-			if d.R.Intn(5) == 0 {
-				creator = d.pick(accs)
+			creator := d.pick(accs)
+			if cb := cosmosOnly(bs); len(cb) > 0 && d.R.Intn(5) != 0 {
+				creator = d.pick(cb)
 			}
 			e := Event{Kind: "DidUpdate", Creator: creator, Did: did, Tx: rm, Datas: keep, Amount: []int64{0, 0, -901, -100}[d.R.Intn(4)]}
 			if d.R.Intn(4) == 0 {
@@ -880,8 +1078,10 @@ func (d *Driver) NextDid() Event {
 			creator := d.pick(accs)
 			acc := d.pick(accs)
 			if len(bs) > 0 && d.R.Intn(4) != 0 {
-				creator = d.pick(bs)
 				acc = d.pick(bs)
+				if cb := cosmosOnly(bs); len(cb) > 0 {
+					creator = d.pick(cb)
+				}
 			}
 			return Event{Kind: "PayAddrSid", Creator: creator, Acc: acc, Did: did}
 		case x < 95:
@@ -897,6 +1097,17 @@ func (d *Driver) NextDid() Event {
 		}
 	}
 	return Event{Kind: "Blocks", N: 1}
+}
+
+// cosmosOnly drops the Ethereum accounts (they cannot submit transactions here).
+func cosmosOnly(xs []string) []string {
+	var out []string
+	for _, x := range xs {
+		if !isEthAcc(x) {
+			out = append(out, x)
+		}
+	}
+	return out
 }
 
 // Run performs setup and n random events.
